@@ -14,6 +14,23 @@ def main(path):
             print('   ' + t.strip().replace('\n', '\n   ')[:1500])
     rc = 0
     fi = d.get('failing_inputs') or []
+    progs = [o for o in d.get('failed_obligations', []) if (o.get('counterexample') or {}).get('client_program')]
+    if progs:
+        # C04 static half: ask rustc again, against the current working tree
+        import clients
+        r = clients.run()
+        by = dict((o['id'], o) for o in r.get('obligations', []))
+        for o in progs:
+            cur = by.get(o['id'])
+            print('--- client program %s' % o['id'])
+            print(o['counterexample']['client_program'])
+            if not cur:
+                print('=> replay error: %s' % (r.get('error') or 'program no longer in the corpus'))
+                continue
+            print('=> %s' % ('rustc STILL ACCEPTS this escaping program' if cur['status'] == 'fail' else 'rustc rejects it on this tree (%s)' % cur['detail'] if cur['status'] == 'pass' else 'undecided: ' + cur['detail']))
+            rc = max(rc, 1 if cur['status'] == 'fail' else 0)
+        if not fi:
+            return rc
     if not fi:
         print('no failing input recorded (no-failing-input-found): nothing to replay natively')
         return 0
